@@ -12,7 +12,7 @@ STAT_NAMES = ["tun_packets", "not_v4_v6_or_short_header", "no_route", "routed",
 
 class Prop:
     pid = "C01"
-    vo_check = ["theories/Outbound/Check.vo"]
+    vo_check = ["theories/Outbound/Check.vo", "theories/Gen/PadAst.vo"]
     vo_props = ["theories/Props/C01.vo"]
     k_names = ["padding(device.calculatePaddingSize == Outbound.Model.pad_len on the boundary domain)",
                "datagrams(device TUN->wire path under co-simulation == Outbound.Model.step)"]
@@ -32,12 +32,15 @@ class Prop:
                    "keepalives of the model (SendKeepalive on an answered handshake with nothing staged) are proved about but not produced by this harness",
                    "all interleavings of TUN reader, encryption workers and sender: order and completeness are C12's subject; here the device runs "
                    "its real goroutines and is observed at quiescence"]
-    trusted_extra = ["harness/ref (own WireGuard implementation on x/crypto) opens every emitted datagram",
+    trusted_extra = ["translator harness/cmd/padast (go/parser: body of calculatePaddingSize as a deep-embedded AST, Go int as Z with 64-bit wrap; unrecognised constructs become Unknown nodes; notes/C01-C06-ast.md)",
+                     "harness/ref (own WireGuard implementation on x/crypto) opens every emitted datagram",
                      "DataPath/Pack.v + Base/Ints.v: primitive Uint63 literals carry packet bytes in generated case files only",
                      "DataPath/Table.v: duplicate prefixes resolved to the last assignment (C08's semantics) before the specification is evaluated"]
 
     def __init__(self):
         self.dir = os.path.join(vlib.OUT, "C01")
+        # translator G2: function bodies regenerated from the source on every run
+        self.translators = [lambda: vlib.gen_file("padast", os.path.join("Gen", "PadAst.v"), ["-repo", vlib.REPO])]
 
     def _run_go(self, args, d):
         exe = vlib.build_go("c01")
